@@ -174,6 +174,12 @@ def check_c07(pid, tier, seed, replay=None):
         scs.append(fam_history(rng, f, 14 if quick else 30, f'hist{i}-{f}'))
     for f in files:
         scs.append(fam_linear(f))
+    # sample seeks on a stride over a whole small file with two packets per page (the discard phase of ov_pcm_seek crosses page ends at many phases)
+    for f, tot in (('U', 6000), ('V', 19904)):
+        step = 37 if quick else 1
+        tg = [str(p) for p in range(seed % step, tot, step)]
+        for i in range(0, len(tg), 400):
+            scs.append(fam_seekgrid(rng, f, 'ps', tg[i:i+400], f'stride-ps-{f}-{i}', reads=1))
     res = run_batch(pid, tier, scs, bindir)
     rules = READ_RULES | SEEK_RULES | SAFETY_RULES | {'OpenStartsAtZero','IntactOpenSucceeds'}
     return finish(pid, tier, seed, 'model_checking', scs, res, rules, t0,
